@@ -440,6 +440,8 @@ def worker_defexpand(rec, shard, nshards, seed):
                     continue        # replacing 'Triangle' by 'Triangle' is no alteration
                 for order in itertools.islice(all_orders(ed), 6):
                     cases.append(("reject", f"(Def-expand/{name}, ({render_tree(order)}))"))
+                    # the same altered content written before the tag
+                    cases.append(("reject", f"(({render_tree(order)}), Def-expand/{name})"))
             if takes:
                 other = subst(content, "zz9" if key == "vt" else "4")
                 cases.append(("reject", f"(Def-expand/{name}, ({render_tree(other)}))"))
